@@ -306,6 +306,217 @@ fn explore(ops: &[Op], hist: &mut Vec<usize>, depth: usize, rep: &Reporter, st: 
     }
 }
 
+
+// ---------- observer leg ----------
+// The dump is read through a hook; users see a copy through its public observers. This leg
+// explores short histories over {eval on A/B, clone, drop a copy} with the observers of the
+// public API as the oracle — captured stdout, pretty_error, last_err_location,
+// location_from_current_ip — on interpreters configured with output interception OFF (so `emit`
+// takes the path to the process's stdout) as well as on. Sources differ only in where their line
+// breaks are (same length, same tokens): a location computed from anything but the copy's own
+// text shows. Copies are dropped and re-created all the time, so state keyed by an address that
+// a dead copy used is reachable too. fd 1 is pointed at /dev/null while the leg runs.
+mod observers {
+    use super::*;
+
+    extern "C" {
+        fn dup(fd: i32) -> i32;
+        fn dup2(a: i32, b: i32) -> i32;
+        fn close(fd: i32) -> i32;
+    }
+    pub struct Quiet(i32);
+    impl Quiet {
+        pub fn new() -> Quiet {
+            use std::io::Write;
+            use std::os::fd::AsRawFd;
+            let _ = std::io::stdout().flush();
+            let saved = unsafe { dup(1) };
+            if let Ok(f) = std::fs::OpenOptions::new().write(true).open("/dev/null") {
+                unsafe { dup2(f.as_raw_fd(), 1) };
+            }
+            Quiet(saved)
+        }
+    }
+    impl Drop for Quiet {
+        fn drop(&mut self) {
+            use std::io::Write;
+            let _ = std::io::stdout().flush();
+            if self.0 >= 0 {
+                unsafe {
+                    dup2(self.0, 1);
+                    close(self.0);
+                }
+            }
+        }
+    }
+
+    #[derive(Clone, Debug, PartialEq)]
+    pub enum O {
+        Eval(usize, usize),
+        Clone,
+        DropB,
+        /// what the REPL's trial mode does per key stroke: a throw-away copy evaluates the text
+        Trial(usize),
+    }
+    pub fn sources() -> Vec<String> {
+        let mut v = vec!["10 u8! emit".to_string(), "\"x\" print".to_string(), "5 var g".to_string()];
+        // the same failing token list with its line breaks in different places
+        let toks = ["1", "2", "drop", "drop", "drop", "7"];
+        for mask in [0b00000u32, 0b00010, 0b01001, 0b10100, 0b11111] {
+            let mut s = String::new();
+            for (i, t) in toks.iter().enumerate() {
+                s.push_str(t);
+                if i + 1 < toks.len() {
+                    s.push(if mask >> i & 1 == 1 { '\n' } else { ' ' });
+                }
+            }
+            v.push(s);
+        }
+        v.push(": e1 0\nget ; [ ] e1".to_string());
+        v.push(": e1 0 get ;\n[ ] e1".to_string());
+        // all location sources have the same length
+        for s in v.iter_mut().skip(3) {
+            while s.len() < 300 {
+                s.push(' ');
+            }
+        }
+        v
+    }
+    fn fresh(output_on: bool) -> Xstate {
+        let mut xs = boot();
+        xs.intercept_stdout(true);
+        let _ = xs.intercept_output(output_on);
+        let _ = xs.set_insn_limit(Some(10_000));
+        xs
+    }
+    pub fn observe(xs: &Xstate) -> Vec<(&'static str, String)> {
+        let mut c = xs.clone();
+        vec![
+            ("read_stdout", format!("{:?}", c.read_stdout())),
+            ("pretty_error", format!("{:?}", xs.pretty_error())),
+            ("last_err_location", format!("{:?}", xs.last_err_location())),
+            ("location_from_current_ip", format!("{:?}", xs.location_from_current_ip())),
+            ("data_stack", format!("{:?}", stack_of(xs))),
+        ]
+    }
+    pub fn op_text(o: &O, srcs: &[String]) -> String {
+        match o {
+            O::Eval(x, s) => format!("eval {}: {:?}{}", ["A", "B"][*x], srcs[*s].trim_end(), if srcs[*s].ends_with(' ') { " (padded with blanks to 300 bytes)" } else { "" }),
+            O::Clone => "clone A -> B".into(),
+            O::DropB => "drop B".into(),
+            O::Trial(s) => format!("clone A -> T, eval T: {:?}, drop T", srcs[*s].trim_end()),
+        }
+    }
+    /// runs the history; returns the observations of both copies after every operation, or None
+    /// when an operation is not applicable
+    fn run_hist(ops: &[O], hist: &[usize], srcs: &[String], output_on: bool, rep: &Reporter, checks: &mut u64) -> Option<()> {
+        let mut a = fresh(output_on);
+        let mut b: Option<Xstate> = None;
+        let mut lin: [Vec<usize>; 2] = [vec![], vec![]];
+        for (step, h) in hist.iter().enumerate() {
+            let before = [Some(observe(&a)), b.as_ref().map(observe)];
+            let touched: usize;
+            match &ops[*h] {
+                O::Clone => {
+                    if b.is_some() {
+                        return None;
+                    }
+                    b = Some(a.clone());
+                    lin[1] = lin[0].clone();
+                    touched = 1;
+                }
+                O::DropB => {
+                    if b.is_none() {
+                        return None;
+                    }
+                    b = None;
+                    lin[1].clear();
+                    touched = 1;
+                }
+                O::Eval(x, s) => {
+                    let xs = if *x == 0 { &mut a } else { b.as_mut()? };
+                    let _ = guarded(|| xs.eval(&srcs[*s]));
+                    lin[*x].push(*s);
+                    touched = *x;
+                }
+                O::Trial(s) => {
+                    let mut t = a.clone();
+                    let _ = guarded(|| t.eval(&srcs[*s]));
+                    drop(t);
+                    touched = 2; // neither A nor B
+                }
+            }
+            if step + 1 < hist.len() {
+                continue; // prefixes were checked as shorter histories
+            }
+            let hist_txt = || J::A(hist.iter().map(|h| js(op_text(&ops[*h], srcs))).collect());
+            let after = [Some(observe(&a)), b.as_ref().map(observe)];
+            for y in 0..2 {
+                // isolation: the copy not operated on shows the same through every observer
+                if y != touched {
+                    if let (Some(p), Some(q)) = (&before[y], &after[y]) {
+                        *checks += 1;
+                        if let Some(d) = first_diff(p, q, &[]) {
+                            let sect = d.split(':').next().unwrap_or("?").to_string();
+                            rep.report_w(&format!("observer-isolation:{}", sect), hist.len() as u64, || {
+                                jo(vec![("kind", js("clone-isolation-public-observers")), ("output_interception", J::B(output_on)), ("history", hist_txt()), ("copy_that_changed", js(["A", "B"][y])), ("difference", js(d.clone()))])
+                            });
+                        }
+                    }
+                }
+                // determinism: every live copy shows what a lone interpreter fed its lineage shows
+                if let Some(q) = &after[y] {
+                    let mut f = fresh(output_on);
+                    for s in &lin[y] {
+                        let _ = guarded(|| f.eval(&srcs[*s]));
+                    }
+                    *checks += 1;
+                    if let Some(d) = first_diff(q, &observe(&f), &[]) {
+                        let sect = d.split(':').next().unwrap_or("?").to_string();
+                        rep.report_w(&format!("observer-replay-differs:{}", sect), hist.len() as u64, || {
+                            jo(vec![("kind", js("clone-determinism-public-observers")), ("output_interception", J::B(output_on)), ("history", hist_txt()), ("copy", js(["A", "B"][y])), ("difference_copy_vs_lone_replay", js(d.clone()))])
+                        });
+                    }
+                }
+            }
+        }
+        Some(())
+    }
+    pub fn run(depth: usize, rep: &Reporter) -> (u64, u64, usize) {
+        let srcs = sources();
+        let mut ops = vec![O::Clone, O::DropB];
+        for s in 3..srcs.len() {
+            ops.push(O::Trial(s));
+        }
+        for x in 0..2 {
+            for s in 0..srcs.len() {
+                ops.push(O::Eval(x, s));
+            }
+        }
+        let _q = Quiet::new();
+        let (mut nh, mut checks) = (0u64, 0u64);
+        for output_on in [false, true] {
+            let mut hist: Vec<usize> = vec![];
+            // odometer over all histories of length 1..=depth
+            fn rec(ops: &[O], hist: &mut Vec<usize>, depth: usize, srcs: &[String], output_on: bool, rep: &Reporter, nh: &mut u64, checks: &mut u64) {
+                if hist.len() == depth {
+                    return;
+                }
+                for k in 0..ops.len() {
+                    hist.push(k);
+                    if run_hist(ops, hist, srcs, output_on, rep, checks).is_some() {
+                        *nh += 1;
+                        rec(ops, hist, depth, srcs, output_on, rep, nh, checks);
+                    }
+                    hist.pop();
+                }
+            }
+            rec(&ops, &mut hist, depth, &srcs, output_on, rep, &mut nh, &mut checks);
+        }
+        (nh, checks, ops.len())
+    }
+}
+
 pub fn run(cfg: &Cfg) -> i32 {
     let rep = Reporter::new("C03");
     let mut ev = Evidence::new("C03", cfg);
@@ -433,6 +644,9 @@ pub fn run(cfg: &Cfg) -> i32 {
         cleanup();
     }
     ev.add("repl_process_runs", ji(repl_runs));
+    // ---------- observer leg (sequential: it redirects the process's stdout)
+    let (oh, ochecks, oalpha) = observers::run(if quick { 3 } else { 4 }, &rep);
+    ev.add("observer_leg", jo(vec![("histories", ji(oh)), ("checks", ji(ochecks)), ("alphabet", ji(oalpha)), ("depth", ji(if quick { 3 } else { 4 })), ("sources", J::A(observers::sources().iter().map(|s| js(s.clone())).collect()))]));
 
     ev.states = nodes.load(Ordering::Relaxed);
     ev.transitions = applied.load(Ordering::Relaxed);
